@@ -248,8 +248,84 @@ func retention(c *hl.Ctx) {
 	}
 }
 
+// history: one ADTS object used for a sequence of SetASC / Encode / Decode / field writes through ASC(): every Encode
+// must describe the configuration the object reports at that moment (no stale cached header), and decode back.
+func history(c *hl.Ctx, depth int) {
+	cfgs := []cfgT{{2, 4, 2}, {1, 3, 6}, {3, 11, 1}}
+	type op struct {
+		k   byte // 'S' SetASC, 'E' Encode, 'D' Decode of an independently written frame, 'P' write through the ASC() pointer
+		cfg int
+	}
+	var alpha []op
+	for i := range cfgs {
+		alpha = append(alpha, op{'S', i}, op{'D', i}, op{'P', i})
+	}
+	alpha = append(alpha, op{'E', 0})
+	idx := 0
+	var rec func(seq []op)
+	rec = func(seq []op) {
+		if len(seq) > 0 && seq[len(seq)-1].k == 'E' {
+			idx++
+			if c.Mine(idx) {
+				c.Eval()
+				m, _ := aac.NewADTS()
+				desc := ""
+				okSoFar := true
+				for i, o := range seq {
+					cf := cfgs[o.cfg]
+					switch o.k {
+					case 'S':
+						asc := adtsref.PackASC(cf.Obj, cf.Sfi, cf.Ch, 0)
+						m.SetASC(asc[:])
+						desc += fmt.Sprintf(" SetASC%v", cf)
+					case 'D':
+						f, _ := refFrame(1, 1, cf, 0, 0x7ff, 5, 3)
+						m.Decode(f)
+						desc += fmt.Sprintf(" Decode(frame%v)", cf)
+					case 'P':
+						a := m.ASC()
+						a.Object, a.SampleRate, a.Channels = aac.ObjectType(cf.Obj), aac.SampleRateIndex(cf.Sfi), aac.Channels(cf.Ch)
+						desc += fmt.Sprintf(" ASC()=%v", cf)
+					case 'E':
+						raw := payload(9+i, 5)
+						data, err := m.Encode(raw)
+						desc += " Encode"
+						cur := *m.ASC()
+						if err != nil {
+							continue // no valid configuration yet
+						}
+						h, rraw, rest, perr := adtsref.Parse(data)
+						if perr != nil || !bytes.Equal(rraw, raw) || len(rest) != 0 {
+							c.Violation("history/encode-unparsable", fmt.Sprintf("history%s: frame %s does not parse back (%v)", desc, hl.Hex(data), perr), encCase{Part: "history"})
+							okSoFar = false
+						} else if h.Profile != adtsref.ProfileOf(uint8(cur.Object)) || h.SFI != uint8(cur.SampleRate) || h.Channels != uint8(cur.Channels) {
+							c.Violation("history/stale-header", fmt.Sprintf("history%s: the encoder's header reports profile=%d sfi=%d channels=%d while the object's configuration is %+v (frame %s)", desc, h.Profile, h.SFI, h.Channels, cur, hl.Hex(data[:7])), encCase{Part: "history"})
+							okSoFar = false
+						}
+					}
+				}
+				if okSoFar {
+					c.Nontrivial("hist" + desc)
+				}
+			}
+		}
+		if len(seq) == depth {
+			return
+		}
+		for _, o := range alpha {
+			rec(append(append([]op{}, seq...), o))
+		}
+	}
+	rec(nil)
+}
+
 func run(c *hl.Ctx) {
 	retention(c)
+	if c.Thorough() {
+		history(c, 5)
+	} else {
+		history(c, 4)
+	}
 	c.Rule("E3 bounded-exhaustive: all 65536 two-byte ASC values; accepted configs (420) x raw lengths; 2-3 frame concatenations; reference-writer frames over id x protection x profile x sfi x channels x header bits x fullness x lengths. Non-trivial = distinct case that decoded successfully to a non-empty raw block (or accepted ASC).")
 	c.Assume("reference ADTS writer/parser written from ISO/IEC 13818-7 6.2 is correct", "payload bytes are a fixed position-dependent pattern with embedded 0xFFF1 lookalikes")
 	checkASC(c)
